@@ -31,6 +31,7 @@ def holds(op, rel, swapped):
 
 
 def run(ctx, rep):
+    rep.exhaustive = True  # 81 order types, 11 symbol variants: the finite space the property quantifies over is enumerated completely
     facts = ctx.mir
     rep.rule("Q1", "A3 path enumeration of traverse::range_contains with its six integers opaque: every branch literal must be a comparison between a bound and the query coordinate of the same dimension; "
                    "the resulting boolean function is compared with `start <=lex position <=lex end` (inclusive) over all 81 order types")
